@@ -137,7 +137,9 @@ def check_guards(F, run, roots):
     dp = "Polynomial::roots"
     where = F.loc(roots)
     c = PI.symbols("c", 3)
-    cases = [("zero-leading", [c[0], c[1], sp.Integer(0)], "Err"), ("nonzero-constant", [c[0]], "Err"), ("zero-constant", [sp.Integer(0)], "Ok")]
+    ic = PI.with_imaginary_lead("c", 3)
+    cases = [("zero-leading", [c[0], c[1], sp.Integer(0)], "Err"), ("nonzero-constant", [c[0]], "Err"), ("zero-constant", [sp.Integer(0)], "Ok"),
+             ("imaginary-leading-is-not-zero", ic, "Ok"), ("imaginary-constant-is-not-zero", [ic[-1]], "Err")]
     for name, cs, want in cases:
         try:
             v, it = call_roots(F, roots, cs)
